@@ -163,6 +163,11 @@ SmtRejects ==
     [entry |-> "from_db", arg |-> "root", kind |-> "notbytes", exc |-> "ValidationError", needs |-> "any"],
     [entry |-> "from_db", arg |-> "root", kind |-> "short", exc |-> "ValidationError", needs |-> "any"],
     [entry |-> "from_db", arg |-> "root", kind |-> "long", exc |-> "ValidationError", needs |-> "any"],
+    \* (a key size outside 1..32 is refused by every way of making a tree, re-opening included)
+    [entry |-> "from_db", arg |-> "key_size", kind |-> "zero", exc |-> "ValidationError", needs |-> "any"],
+    [entry |-> "from_db", arg |-> "key_size", kind |-> "toolarge", exc |-> "ValidationError", needs |-> "any"],
+    [entry |-> "from_db", arg |-> "key_size", kind |-> "negative", exc |-> "ValidationError", needs |-> "any"],
+    [entry |-> "constructor", arg |-> "key_size", kind |-> "negative", exc |-> "ValidationError", needs |-> "any"],
     [entry |-> "calc_root", arg |-> "key", kind |-> "notbytes", exc |-> "ValidationError", needs |-> "any"],
     [entry |-> "calc_root", arg |-> "value", kind |-> "notbytes", exc |-> "ValidationError", needs |-> "any"],
     [entry |-> "calc_root", arg |-> "branch", kind |-> "short", exc |-> "ValidationError", needs |-> "any"],
